@@ -94,13 +94,13 @@ def predict_case(cid, rng, big):
             c["vara"] = ints(model.var_a(pg), ok, nn)
             bul = np.asarray(model.bulmer(pg), dtype=float)
             c["bulnan"] = [bool(np.isnan(x)) for x in bul]
-            c["bul"] = []
+            c["bul"] = []; c["bulon"] = n <= 10
             for x in bul:
                 if np.isnan(x):
                     c["bul"].append([0, 1])
                 else:
-                    f = Fraction(float(x)).limit_denominator(200000)
-                    if abs(float(f) - x) > 1e-9 * max(1.0, abs(x)):
+                    f = Fraction(float(x)).limit_denominator(5000)
+                    if n <= 10 and abs(float(f) - x) > 1e-9 * max(1.0, abs(x)):
                         ok[0] = False
                     c["bul"].append([f.numerator, f.denominator])
             for key, fn in (("fa", model.facount), ("da", model.dacount)):
@@ -112,7 +112,7 @@ def predict_case(cid, rng, big):
     except Exception as e:
         c["err"] = "%s: %s" % (type(e).__name__, str(e)[:200])
     zT = [[0] * T] * n; zL = [[0] * T] * p; fL = [[False] * T] * p
-    for k, dflt in (("r2on", False), ("pred", zT), ("Y", zT), ("r2", [[0, 1]] * T), ("r2nan", [True] * T), ("gebv", zT), ("gegv", zT), ("varA", [0] * T), ("varG", [0] * T), ("vara", [0] * T), ("bulnan", [True] * T), ("bul", [[0, 1]] * T),
+    for k, dflt in (("bulon", False), ("r2on", False), ("pred", zT), ("Y", zT), ("r2", [[0, 1]] * T), ("r2nan", [True] * T), ("gebv", zT), ("gegv", zT), ("varA", [0] * T), ("varG", [0] * T), ("vara", [0] * T), ("bulnan", [True] * T), ("bul", [[0, 1]] * T),
                     ("fa", zL), ("da", zL), ("fafreq2n", zL), ("dafreq2n", zL), ("lat", False), ("labelsok", False)):
         c.setdefault(k, dflt)
     for k in ("faavail", "fafixed", "fapoly", "daavail", "dafixed", "dapoly", "nafixed", "napoly"):
